@@ -185,6 +185,31 @@ func Load(dir string, bc BuildConfig, overlay map[string][]byte) (*Program, erro
 		funcAliases = map[string]*types.Func{}
 		p.computeAliases(known)
 	}
+	// new local aggregates back into one local per field (sroa.go)
+	if kt := loadKnownTypes(); kt != nil {
+		for pass := 0; pass < 3; pass++ {
+			ov, ns := p.sroaOnce(kt)
+			if ov == nil {
+				break
+			}
+			merged := map[string][]byte{}
+			for k, v := range cur {
+				merged[k] = v
+			}
+			for k, v := range ov {
+				merged[k] = v
+			}
+			p2, err2 := loadRaw(dir, bc, merged)
+			if err2 != nil {
+				notes = append(notes, "scalar replacement abandoned (the rewritten program does not type-check: "+firstLine(err2.Error())+")")
+				break
+			}
+			notes = append(notes, ns...)
+			p, cur = p2, merged
+			funcAliases = map[string]*types.Func{}
+			p.computeAliases(known)
+		}
+	}
 	p.Normalised = notes
 	return p, nil
 }
